@@ -198,8 +198,8 @@ func v2decMsgTx(b []byte) (tx *wire.MsgTx, ok bool) {
 
 type v2kv struct{ k, v []byte }
 type v2sec struct {
-	vals  [][]byte  // single-valued positions: canonical encoding, empty when absent
-	lists [][]v2kv  // multi-valued positions: (key data, value) in slice order
+	vals  [][]byte // single-valued positions: canonical encoding, empty when absent
+	lists [][]v2kv // multi-valued positions: (key data, value) in slice order
 	props []psetv2.ProprietaryData
 	unks  []psetv2.KeyPair
 }
@@ -299,45 +299,28 @@ func v2derivKvs(l []psetv2.DerivationPathWithPubKey) (o []v2kv) {
 }
 
 // pre-image maps: the key is padded/truncated to the array length; the dump lists by key
-func v2map20(l []v2kv) map[[20]byte][]byte {
-	if len(l) == 0 {
-		return nil
+func v2maps(l []v2kv) (m20 map[[20]byte][]byte, m32 map[[32]byte][]byte) {
+	if len(l) > 0 {
+		m20, m32 = map[[20]byte][]byte{}, map[[32]byte][]byte{}
 	}
-	m := map[[20]byte][]byte{}
 	for _, e := range l {
-		var k [20]byte
-		copy(k[:], e.k)
-		m[k] = e.v
+		var k20 [20]byte
+		var k32 [32]byte
+		copy(k20[:], e.k)
+		copy(k32[:], e.k)
+		m20[k20], m32[k32] = e.v, e.v
 	}
-	return m
+	return
 }
-func v2map32(l []v2kv) map[[32]byte][]byte {
-	if len(l) == 0 {
-		return nil
+func v2kvs(m20 map[[20]byte][]byte, m32 map[[32]byte][]byte) (l []v2kv) {
+	for k, v := range m20 {
+		l = append(l, v2kv{v2cp(k[:]), v})
 	}
-	m := map[[32]byte][]byte{}
-	for _, e := range l {
-		var k [32]byte
-		copy(k[:], e.k)
-		m[k] = e.v
+	for k, v := range m32 {
+		l = append(l, v2kv{v2cp(k[:]), v})
 	}
-	return m
-}
-func v2sortKvs(l []v2kv) []v2kv {
 	sort.Slice(l, func(i, j int) bool { return bytes.Compare(l[i].k, l[j].k) < 0 })
 	return l
-}
-func v2kvs20(m map[[20]byte][]byte) (l []v2kv) {
-	for k, v := range m {
-		l = append(l, v2kv{v2cp(k[:]), v})
-	}
-	return v2sortKvs(l)
-}
-func v2kvs32(m map[[32]byte][]byte) (l []v2kv) {
-	for k, v := range m {
-		l = append(l, v2kv{v2cp(k[:]), v})
-	}
-	return v2sortKvs(l)
 }
 
 // ----- global -----
@@ -430,8 +413,10 @@ func v2toInput(s *v2sec) psetv2.Input {
 	}
 	in.SigHashType = txscript.SigHashType(uint32(v2num(v[3])))
 	in.Bip32Derivation = v2derivs(s.lists[6])
-	in.Ripemd160Preimages, in.Sha256Preimages = v2map20(s.lists[9]), v2map32(s.lists[10])
-	in.Hash160Preimages, in.Hash256Preimages = v2map20(s.lists[11]), v2map32(s.lists[12])
+	in.Ripemd160Preimages, _ = v2maps(s.lists[9])
+	_, in.Sha256Preimages = v2maps(s.lists[10])
+	in.Hash160Preimages, _ = v2maps(s.lists[11])
+	_, in.Hash256Preimages = v2maps(s.lists[12])
 	if len(v[22]) > 0 {
 		tx, ok := v2decMsgTx(v[22])
 		if !ok {
@@ -524,8 +509,8 @@ func v2fromInput(in *psetv2.Input) *v2sec {
 	}
 	v[3] = v2opt(uint64(uint32(in.SigHashType)), 4)
 	s.lists[6] = v2derivKvs(in.Bip32Derivation)
-	s.lists[9], s.lists[10] = v2kvs20(in.Ripemd160Preimages), v2kvs32(in.Sha256Preimages)
-	s.lists[11], s.lists[12] = v2kvs20(in.Hash160Preimages), v2kvs32(in.Hash256Preimages)
+	s.lists[9], s.lists[10] = v2kvs(in.Ripemd160Preimages, nil), v2kvs(nil, in.Sha256Preimages)
+	s.lists[11], s.lists[12] = v2kvs(in.Hash160Preimages, nil), v2kvs(nil, in.Hash256Preimages)
 	if in.PeginTx != nil {
 		v[22] = v2encMsgTx(in.PeginTx)
 	}
@@ -630,7 +615,7 @@ func dumpPsetV2(p *psetv2.Pset) string {
 // sec counts the separators seen before it (0 = global section)
 type v2pair struct {
 	start, kend, end, sec int
-	key, val             []byte
+	key, val              []byte
 }
 
 func v2walk(bs []byte) (ps []v2pair) {
@@ -995,8 +980,16 @@ func v2genMsgTx(r *Rng) *wire.MsgTx {
 	return tx
 }
 
+// pre-image maps with two entries or more (whose serialization depends on Go's map iteration
+// order) are confined to a quarter of the field-by-field packets: v2manyPreimages is set per packet
+var v2manyPreimages bool
+
 func v2genMap(r *Rng, klen int) (l []v2kv) {
-	for n := r.Pick(1, 1, 2, 2, 3); n > 0; n-- {
+	n := 1
+	if v2manyPreimages {
+		n = r.Pick(1, 2, 2, 3)
+	}
+	for ; n > 0; n-- {
 		l = append(l, v2kv{r.Bytes(klen), r.Bytes(r.Pick(0, 1, 8, 32))})
 	}
 	return
@@ -1011,7 +1004,7 @@ func v2genProps(r *Rng, low int) (l []psetv2.ProprietaryData) {
 }
 func v2genUnks(r *Rng, extra ...int) (l []psetv2.KeyPair) {
 	for n := r.Pick(1, 1, 2); n > 0; n-- {
-		kt := 0x19 + r.Intn(0xfc-0x19)
+		kt := 0x19 + r.Intn(0xfb-0x19) // 0x19..0xfa: no field of any section, not proprietary
 		if len(extra) > 0 && r.Chance(25) {
 			kt = r.Pick(extra...)
 		}
@@ -1082,12 +1075,12 @@ func v2genGlobal(r *Rng, nin, nout int) *v2sec {
 	return s
 }
 
-func v2genInput(r *Rng) *v2sec {
+func v2genInput(r *Rng, fix bool) *v2sec {
 	s := v2newSec(v2iKinds)
 	n := len(v2iKinds)
 	on := v2onSet(r, n+2)
 	on[17], on[26] = false, false // height locktime and peg-in value: only as violations
-	if r.Chance(92) {             // cross-field rules of Input.SanityCheck
+	if fix {                      // cross-field rules of Input.SanityCheck
 		on[13] = true
 		on[1] = on[1] || on[5] || on[8]
 		if on[18] {
@@ -1180,12 +1173,12 @@ func v2genInField(r *Rng, s *v2sec, pos int) {
 	}
 }
 
-func v2genOutput(r *Rng) *v2sec {
+func v2genOutput(r *Rng, fix bool) *v2sec {
 	s := v2newSec(v2oKinds)
 	n := len(v2oKinds)
 	on := v2onSet(r, n+2)
 	blinded := false
-	if r.Chance(92) { // rules of Output.SanityCheck
+	if fix { // rules of Output.SanityCheck
 		if on[5] || on[6] || on[8] || on[9] || on[11] {
 			blinded = r.Bool()
 			on[5], on[6], on[8], on[9], on[11] = blinded, blinded, blinded, blinded, blinded
@@ -1244,85 +1237,55 @@ func v2fullyBlinded(s *v2sec) bool {
 	return len(v[5]) > 0 && len(v[6]) > 0 && len(v[8]) > 0 && len(v[9]) > 0 && len(v[11]) > 0
 }
 
-// one broken rule; returns false when the packet has no place for it
+// one broken rule, in a random section (a bad global tx version when the packet has no place for it)
 func v2violate(r *Rng, g *v2sec, ins, outs *[]*v2sec) {
 	var in, out *v2sec
+	tgt, sec := g, 'g' // tgt: a random section of any kind
 	if len(*ins) > 0 {
 		in = (*ins)[r.Intn(len(*ins))]
 	}
 	if len(*outs) > 0 {
 		out = (*outs)[r.Intn(len(*outs))]
 	}
-	wrong := func(n int) []byte { return r.Bytes(r.Pick(n-1, n+1, 1, 2*n)) }
+	if k := r.Intn(3); k == 0 && in != nil {
+		tgt, sec = in, 'i'
+	} else if k == 1 && out != nil {
+		tgt, sec = out, 'o'
+	}
+	pick := func(m map[rune][]int) int { return r.Pick(m[sec]...) }
 	kind := r.Pick(0, 0, 1, 2, 2, 2, 3, 3, 4, 5, 6, 7, 8, 8, 9, 10, 11, 12)
 	switch {
-	case kind == 0 && in != nil && r.Bool(): // wrong length of a fixed-length field
+	case kind == 0 && sec == 'g': // wrong length of a fixed-length field
+		g.lists[6] = append(g.lists[6], v2kv{r.Bytes(r.Pick(31, 33, 1)), nil})
+	case kind == 0:
 		lens := map[int]int{13: 32, 19: 33, 24: 32, 29: 33, 30: 32, 31: 32, 37: 32, 40: 64, 44: 32, 45: 32}
 		pos := 13
-		for _, c := range []int{19, 24, 29, 30, 31, 37, 40, 44, 45} {
-			if len(in.vals[c]) > 0 && r.Bool() {
+		if sec == 'o' {
+			lens, pos = map[int]int{5: 33, 6: 33, 7: 32, 10: 33, 11: 33}, 7
+		}
+		for c := 0; c < len(tgt.vals); c++ { // preferably a field that is present
+			if lens[c] > 0 && len(tgt.vals[c]) > 0 && r.Bool() {
 				pos = c
 			}
 		}
-		in.vals[pos] = wrong(lens[pos])
-	case kind == 0 && out != nil:
-		lens := map[int]int{5: 33, 6: 33, 7: 32, 10: 33, 11: 33}
-		pos := 7
-		for _, c := range []int{5, 6, 10, 11} {
-			if len(out.vals[c]) > 0 && r.Bool() {
-				pos = c
-			}
-		}
-		out.vals[pos] = wrong(lens[pos])
-	case kind == 0:
-		g.lists[6] = append(g.lists[6], v2kv{wrong(32), nil})
+		tgt.vals[pos] = r.Bytes(r.Pick(lens[pos]-1, lens[pos]+1, 1, 2*lens[pos]))
 	case kind == 1 && in != nil: // duplicate key
 		pos := r.Pick(2, 6, 41, 43)
 		if len(in.lists[pos]) == 0 {
 			v2genInField(r, in, pos)
 		}
-		e := in.lists[pos][0]
-		in.lists[pos] = append(in.lists[pos], v2kv{v2cp(e.k), v2cp(e.v)})
-	case kind == 2 && in != nil:
-		v2genInField(r, in, 17)
-	case kind == 3 && in != nil:
-		v2genInField(r, in, 26)
+		in.lists[pos] = append(in.lists[pos], v2kv{v2cp(in.lists[pos][0].k), v2cp(in.lists[pos][0].v)})
+	case (kind == 2 || kind == 3) && in != nil: // height locktime, peg-in value
+		v2genInField(r, in, 17+9*(kind-2))
 	case kind == 4: // foreign proprietary identifier
-		pd := psetv2.ProprietaryData{Identifier: []byte("foo"), Subtype: uint8(r.Intn(256)), KeyData: r.Bytes(r.Intn(3)), Value: r.Bytes(4)}
-		switch {
-		case in != nil && r.Bool():
-			in.props = append(in.props, pd)
-		case out != nil && r.Bool():
-			out.props = append(out.props, pd)
-		default:
-			g.props = append(g.props, pd)
-		}
+		tgt.props = append(tgt.props, psetv2.ProprietaryData{Identifier: []byte("foo"), Subtype: uint8(r.Intn(256)), KeyData: r.Bytes(r.Intn(3)), Value: r.Bytes(4)})
 	case kind == 5: // proprietary subtype owned by a field
-		pd := psetv2.ProprietaryData{Identifier: []byte("pset"), Value: r.Bytes(r.Pick(1, 8, 32, 33))}
-		switch {
-		case in != nil && r.Bool():
-			pd.Subtype = uint8(r.Intn(0x16))
-			in.props = append(in.props, pd)
-		case out != nil && r.Bool():
-			pd.Subtype = uint8(1 + r.Intn(10))
-			out.props = append(out.props, pd)
-		default:
-			pd.Subtype = uint8(r.Intn(2))
-			g.props = append(g.props, pd)
-		}
+		sub := pick(map[rune][]int{'g': {0, 1}, 'i': {0, 1, 4, 6, 8, 9, 0x0d, 0x15}, 'o': {1, 2, 3, 6, 7, 8, 0x0a}})
+		tgt.props = append(tgt.props, psetv2.ProprietaryData{Identifier: []byte("pset"), Subtype: uint8(sub), Value: r.Bytes(r.Pick(1, 8, 32, 33))})
 	case kind == 6: // unknown key pair with the key type of a field
-		kp := psetv2.KeyPair{Value: r.Bytes(r.Pick(1, 4, 32, 33))}
-		switch {
-		case in != nil && r.Bool():
-			kp.Key.KeyType = uint8(r.Pick(0, 1, 2, 3, 4, 7, 0x0a, 0x0e, 0x10, 0x12, 0x13, 0x15, 0x16, 0x18, 0xfc))
-			in.unks = append(in.unks, kp)
-		case out != nil && r.Bool():
-			kp.Key.KeyType = uint8(r.Pick(0, 1, 2, 3, 4, 0xfc))
-			out.unks = append(out.unks, kp)
-		default:
-			kp.Key.KeyType = uint8(r.Pick(1, 2, 3, 4, 5, 6, 0xfb, 0xfc))
-			g.unks = append(g.unks, kp)
-		}
+		kt := pick(map[rune][]int{'g': {1, 2, 3, 4, 5, 6, 0xfb, 0xfc}, 'o': {0, 1, 2, 3, 4, 0xfc},
+			'i': {0, 1, 2, 3, 4, 7, 0x0a, 0x0e, 0x10, 0x12, 0x13, 0x15, 0x16, 0x18, 0xfc}})
+		tgt.unks = append(tgt.unks, psetv2.KeyPair{Key: psetv2.Key{KeyType: uint8(kt)}, Value: r.Bytes(r.Pick(1, 4, 32, 33))})
 	case kind == 7: // counts
 		g.vals[3+r.Intn(2)] = v2opt(uint64(r.Pick(0, 1, 2, 5, 253)), 8)
 	case kind == 8: // 253 outputs or more, kept minimal
@@ -1333,15 +1296,11 @@ func v2violate(r *Rng, g *v2sec, ins, outs *[]*v2sec) {
 		}
 		g.vals[4] = v2opt(uint64(len(*outs)), 8)
 	case kind == 9: // empty derivation path
-		kv := v2kv{v2newKey(r).comp(), v2le(r.U64(), 4)}
-		switch {
-		case in != nil && r.Bool():
-			in.lists[6] = append(in.lists[6], kv)
-		case out != nil && r.Bool():
-			out.lists[2] = append(out.lists[2], kv)
-		default:
-			g.lists[0] = append(g.lists[0], v2kv{r.Bytes(78), kv.v})
+		pos, key := pick(map[rune][]int{'g': {0}, 'i': {6}, 'o': {2}}), v2newKey(r).comp()
+		if sec == 'g' {
+			key = r.Bytes(78)
 		}
+		tgt.lists[pos] = append(tgt.lists[pos], v2kv{key, v2le(r.U64(), 4)})
 	case kind == 10 && in != nil: // invalid public key or signature
 		k := v2newKey(r)
 		pk, sg := k.comp(), k.sig(r)
@@ -1353,17 +1312,14 @@ func v2violate(r *Rng, g *v2sec, ins, outs *[]*v2sec) {
 		in.lists[2] = append(in.lists[2], v2kv{pk, sg})
 	case kind == 10 && out != nil:
 		out.vals[10] = append([]byte{byte(r.Pick(0, 4, 5))}, r.Bytes(32)...)
-	case kind == 11 && in != nil: // taproot: version mismatch, no leaf hash, empty script
-		switch r.Intn(3) {
-		case 0:
-			v2genInField(r, in, 42)
-			e := &in.lists[42][0]
+	case kind == 11 && in != nil && r.Chance(33): // taproot: no leaf hash
+		in.lists[43] = append(in.lists[43], v2kv{v2newKey(r).comp(), v2cat(v2cs(0), v2genPath(r))})
+	case kind == 11 && in != nil: // taproot: leaf version unlike the control block's, empty script
+		v2genInField(r, in, 42)
+		e := &in.lists[42][0]
+		if r.Bool() {
 			e.v[len(e.v)-1] ^= byte(r.Pick(2, 4, 0x40))
-		case 1:
-			in.lists[43] = append(in.lists[43], v2kv{v2newKey(r).comp(), v2cat(v2cs(0), v2genPath(r))})
-		default:
-			v2genInField(r, in, 42)
-			e := &in.lists[42][0]
+		} else {
 			e.v = e.v[len(e.v)-1:]
 		}
 	case kind == 12 && in != nil: // witness script without witness utxo
@@ -1379,18 +1335,20 @@ func v2genDirect(r *Rng) *psetv2.Pset {
 		nin, nout = 0, 0
 	}
 	g := v2genGlobal(r, nin, nout)
+	fix := r.Chance(90) // keep the cross-field sanity rules satisfied
+	v2manyPreimages = r.Chance(25)
 	var ins, outs []*v2sec
 	for i := 0; i < nin; i++ {
-		ins = append(ins, v2genInput(r))
+		ins = append(ins, v2genInput(r, fix))
 	}
 	needs, full := false, false
 	for i := 0; i < nout; i++ {
-		o := v2genOutput(r)
+		o := v2genOutput(r, fix)
 		outs = append(outs, o)
 		full = full || v2fullyBlinded(o)
 		needs = needs || (len(o.vals[10]) > 0 && !v2fullyBlinded(o))
 	}
-	if needs && full && len(g.lists[6]) == 0 && r.Chance(92) { // Pset.SanityCheck
+	if needs && full && len(g.lists[6]) == 0 && fix { // Pset.SanityCheck
 		g.lists[6] = []v2kv{{r.Bytes(32), nil}}
 	}
 	if r.Chance(10) {
@@ -1576,7 +1534,7 @@ func v2mutate(r *Rng, ser []byte) []byte {
 	ps := v2walk(ser)
 	splice := func(from, to int, ins []byte) []byte { return v2cat(ser[:from], ins, ser[to:]) }
 	m := v2cp(ser)
-	kind := r.Intn(14)
+	kind := r.Intn(16)
 	if len(ps) == 0 && kind >= 6 {
 		kind = r.Intn(6)
 	}
@@ -1619,9 +1577,29 @@ func v2mutate(r *Rng, ser []byte) []byte {
 	case 12: // non-canonical compact size in place of a length byte
 		at := r.Pick(q.start, q.kend)
 		m = splice(at, at+1, []byte{0xfd, 0x01, 0x00})
-	default: // input / output count
+	case 13: // a second entry, with a greater key, after a pre-image pair
 		for _, c := range ps {
-			if c.sec == 0 && len(c.key) == 1 && c.key[0] == byte(r.Pick(4, 5)) && len(c.val) == 1 {
+			if t := c.key[0]; t >= 0x0a && t <= 0x0d && len(c.key) > 1 && c.key[1] < 0xff {
+				k2 := v2cp(c.key)
+				k2[1]++
+				m = splice(c.end, c.end, v2cat(v2vs(k2), v2vs(r.Bytes(r.Pick(0, 1, 8)))))
+				break
+			}
+		}
+	case 14: // one more field in an input section: height locktime, peg-in value, leaf script without value
+		ins := [][]byte{v2cat(v2vs([]byte{0x12}), v2vs(v2le(uint64(1+r.Intn(499999999)), 4))),
+			v2cat(v2vs(append([]byte{0xfc, 4, 'p', 's', 'e', 't', 8})), v2vs(v2le(1+r.U64()%1000000, 8))),
+			v2cat(v2vs(v2cat([]byte{0x15, 0xc4}, v2newKey(r).xonly())), v2vs(nil))}[r.Intn(3)]
+		for _, c := range ps {
+			if c.sec >= 1 && (c.sec > 1 || r.Bool()) {
+				m = splice(c.start, c.start, ins)
+				break
+			}
+		}
+	default: // input / output count
+		which := byte(r.Pick(4, 5))
+		for _, c := range ps {
+			if c.sec == 0 && len(c.key) == 1 && c.key[0] == which && len(c.val) == 1 {
 				m[c.end-1] = byte(r.Pick(0, int(c.val[0])+1, int(c.val[0])+255, 0xfd))
 				break
 			}
@@ -1636,11 +1614,13 @@ func genV2PsetRawCases(r *Rng, n int, w *bufio.Writer) {
 		for try := 0; try < 4 && !wfPsetV2(p); try++ {
 			p = v2genPset(r)
 		}
+		// (the library serializes a map of two entries or more differently from call to call,
+		// beyond their order: such streams are made by the mutation adding a pre-image pair)
 		b64, st := v2ser(p)
-		if st != "ok" {
+		if st != "ok" || v2multiMap(p) {
 			continue
 		}
-		m := v2mutate(r, v2canonMaps(v2unb64(b64), len(p.Inputs)))
+		m := v2mutate(r, v2unb64(b64))
 		if !v2safeStream(m) || !v2mapsSorted(m) {
 			continue
 		}
